@@ -20,6 +20,7 @@ import (
 	"storj.io/drpc"
 	"storj.io/drpc/drpcmanager"
 	"storj.io/drpc/drpcstream"
+	"storj.io/drpc/drpcwire"
 
 	"verifharness/census"
 	"verifharness/director"
@@ -269,7 +270,7 @@ func run(id string, sc scen) runner.Result {
 			switch name {
 			case "send-transport":
 				launch(name, func() error { return send(st, 5000) })
-			case "send-lock":
+			case "send-lock", "send-after":
 				launch(name, func() error { return send(st, 20) })
 			case "recv":
 				launch(name, func() error { var m []byte; return st.MsgRecv(&m, payload.Enc{}) })
@@ -382,10 +383,10 @@ func run(id string, sc scen) runner.Result {
 			if !errors.Is(err, ctxErr) {
 				failf("%s was blocked inside the transport write (default cancel mode) and returned %q, want the context's error", o.name, rig.ErrStr(err))
 			}
-		case o.name == "send-lock" && !sc.soft && !ownEndInFlight:
+		case (o.name == "send-lock" || o.name == "send-after") && !sc.soft && !ownEndInFlight:
 			// a send blocked behind another goroutine's send is a blocked send as well
 			if !errors.Is(err, ctxErr) {
-				failf("%s was blocked behind another send (default cancel mode) and returned %q, want the context's error", o.name, rig.ErrStr(err))
+				failf("%s was blocked behind another call's write (default cancel mode) and returned %q, want the context's error", o.name, rig.ErrStr(err))
 			}
 		}
 	}
@@ -705,6 +706,89 @@ func finishRaceQueued(id string, soft bool, where string, serverEnds string, idl
 	return res
 }
 
+// midMessage: the context is cancelled while a middle frame of a message that spans several frames
+// is inside the transport, and that write then completes successfully (its bytes were out already).
+// The send was blocked in the transport when the cancel happened: default mode promises the
+// context's error, not the end-of-stream a send issued afterwards gets.
+func midMessage(id string, side string, frame int, raw bool) runner.Result {
+	sopts := drpcstream.Options{SplitSize: 64}
+	mopts := drpcmanager.Options{WriterBufferSize: 1, Stream: sopts}
+	type hs struct {
+		st  drpc.Stream
+		ctx context.Context
+	}
+	hch := make(chan hs, 1)
+	release := make(chan struct{})
+	handler := rig.HandlerFunc(func(stream drpc.Stream, rpc string) error {
+		if side == "server" {
+			hch <- hs{stream, stream.Context()}
+			<-release
+			return nil
+		}
+		for {
+			var m []byte
+			if err := stream.MsgRecv(&m, payload.Enc{}); err != nil {
+				return nil
+			}
+		}
+	})
+	rg := rig.New(rig.Config{Net: simnet.Opts{Cap: -1}, Client: mopts, Server: mopts}, handler)
+	defer rg.Teardown()
+	defer close(release)
+	ctx, cancel := context.WithCancel(context.Background())
+	defer cancel()
+	cst, err := rg.Conn.NewStream(ctx, "/mid", payload.Enc{})
+	if err != nil {
+		return runner.Inconcl(id, "NewStream: "+err.Error())
+	}
+	first := payload.Make(1, 0, 0, 0, 10)
+	if err := cst.MsgSend(&first, payload.Enc{}); err != nil {
+		return runner.Inconcl(id, "first send: "+err.Error())
+	}
+	st, end := cst, rg.Pair.A
+	if side == "server" {
+		census.Quiesce(rig.Watchdog)
+		select {
+		case h := <-hch:
+			st, end = h.st, rg.Pair.B
+		default:
+			return runner.Inconcl(id, "handler did not start")
+		}
+	}
+	census.Quiesce(rig.Watchdog)
+	gate := end.GateWriteIdx(end.WriteCount()+frame, simnet.After)
+	gate.SucceedOnClose = true
+	op := rig.Go("send", func() (interface{}, error) {
+		m := payload.Make(1, 0, 0, 1, 1000) // about 16 frames of 64 bytes, one transport write each
+		if raw {
+			return nil, st.(interface {
+				RawWrite(drpcwire.Kind, []byte) error
+			}).RawWrite(drpcwire.KindMessage, m)
+		}
+		return nil, st.MsgSend(&m, payload.Enc{})
+	})
+	stq, _ := census.QuiesceOr(gate.Reached(), rig.Watchdog)
+	desc := fmt.Sprintf("mid-message side=%s raw=%v: context cancelled while frame %d of a 16-frame message is inside the transport; that write then completes successfully", side, raw, frame)
+	if stq != "ready" {
+		gate.Release()
+		return runner.Inconcl(id, desc+": the gated write was not reached")
+	}
+	cancel() // server side: the client's cancel closes the transport, which cancels the handler's stream
+	census.Quiesce(rig.Watchdog)
+	gate.Release()
+	_, snap := census.Quiesce(rig.Watchdog)
+	if !op.Returned() {
+		return runner.Violation(id, "cancel:mid-message send-still-blocked side="+side, desc+"\n"+census.Dump(census.InDRPC(snap)))
+	}
+	want := context.Canceled
+	if !errors.Is(op.Err, want) {
+		return runner.Violation(id, fmt.Sprintf("cancel:wrong-error mid-message side=%s raw=%v", side, raw), desc+"\nthe send returned "+rig.ErrStr(op.Err)+", want the context's error")
+	}
+	res := runner.Hold(id, desc, true)
+	res.Events = 2
+	return res
+}
+
 // terminalWaitsForWriteLock: some Close/CloseSend/SendError is queued on a lock (the write lock,
 // which it waits for while holding the state lock) and some other call is inside the transport's Write.
 func terminalWaitsForWriteLock(snap []census.G) bool {
@@ -746,7 +830,7 @@ func keyOf(sc scen, first string) string {
 
 func gen(tier string, seed uint64) []runner.Scenario {
 	var all []scen
-	clientOps := []string{"recv-held", "send-transport", "send-lock", "recv", "close", "closesend", "flush", "newstream2", "newstream2x"}
+	clientOps := []string{"recv-held", "send-transport", "send-lock", "recv", "send-after", "close", "closesend", "flush", "newstream2", "newstream2x"}
 	serverOps := []string{"send-transport", "send-lock", "recv", "closesend", "senderror", "flush"}
 	for _, side := range []string{"client", "server"} {
 		base := clientOps
@@ -785,6 +869,11 @@ func gen(tier string, seed uint64) []runner.Scenario {
 						if has("send-lock") && !has("send-transport") {
 							continue
 						}
+						// send-after: a send issued while the stream's first receive is inside the transport
+						// flushing the corked invoke, so the send is blocked behind the receive
+						if has("send-after") && !(has("recv") && point == "corked" && net != "flowing" && !has("send-transport") && !has("send-lock")) {
+							continue
+						}
 						if has("close") && has("closesend") && has("senderror") {
 							continue
 						}
@@ -808,6 +897,17 @@ func gen(tier string, seed uint64) []runner.Scenario {
 	}
 	r := &payload.SplitMix{S: payload.Hash(seed, 0xC04)}
 	var out []runner.Scenario
+	// client side only: on the server side the handler's context is cancelled by the disconnect itself,
+	// so a write that fails because the peer is gone precedes the cancellation and may report the transport's error
+	for _, side := range []string{"client"} {
+		for _, frame := range []int{1, 2, 7, 14} {
+			for _, raw := range []bool{false, true} {
+				side, frame, raw := side, frame, raw
+				id := fmt.Sprintf("mid-message/%s/frame=%d/raw=%v", side, frame, raw)
+				out = append(out, runner.Scenario{ID: id, Run: func() runner.Result { return midMessage(id, side, frame, raw) }})
+			}
+		}
+	}
 	for _, soft := range []bool{false, true} {
 		for _, where := range []string{"stream.fin", "manager.stream.fin", "stream.close.mu", "manager.stream.ctx", "manager.stream.beforeSendCancel", "manager.newstream.published"} {
 			for _, ends := range []string{"return", "error", "close"} {
